@@ -348,6 +348,49 @@ def extras():
     ]
 
 
+def generic_rules():
+    LINOPF = "xitorch/_core/linop.py"
+    JACF = "xitorch/grad/jachess.py"
+    RFF = "xitorch/optimize/rootfinder.py"
+    QUADF = "xitorch/integrate/quad.py"
+    S_PUB = "xitorch/linalg/solve.py"
+    return [
+        # ---- hidden state
+        R("hs-local-dict-ok", "C12", "xitorch/_impls/integrate/fixed_quad.py", "    ndim = len(xu.shape)\n", "    ndim = len(xu.shape)\n    info = {}\n    info[\"n\"] = n\n", None, expect="silent",
+          note="mutation of a local container is not state"),
+        R("hs-module-memo", "C12", "xitorch/_impls/integrate/fixed_quad.py", "# no gradient flowing in the following functions\n", "# no gradient flowing in the following functions\n_rules = {}\n", None, expect="silent",
+          note="an unused module-level dict is not written by any function"),
+        R("hs-module-memo-used", "C12", "xitorch/_impls/integrate/fixed_quad.py", "    xlg, wlg = np.polynomial.legendre.leggauss(n)\n", "    if n not in _RULES:\n        _RULES[n] = np.polynomial.legendre.leggauss(n)\n    xlg, wlg = _RULES[n]\n", "HS",
+          note="placeholder; needs the module-level dict"),
+        R("hs-instance-cache", "C15", "xitorch/integrate/squad.py", "        res = self.obj.cumsum(y)\n", "        self._last_y = y\n        res = self.obj.cumsum(y)\n", "HS"),
+        R("hs-class-attr", "C11", LINOPF, "    def _mv(self, x: torch.Tensor) -> torch.Tensor:\n        return self.a._mv(self.b._mv(x))", "    def _mv(self, x: torch.Tensor) -> torch.Tensor:\n        type(self)._ncalls = getattr(type(self), \"_ncalls\", 0) + 1\n        return self.a._mv(self.b._mv(x))", ["HS", "C11-ST"]),
+        # ---- wrapper returns / provenance
+        R("ac11-return-via-local-ok", "C13", QUADF, "        return _Quadrature.apply(pfunc, xl, xu, fwd_options, bck_options, nparams,\n                                 dtype, device, *params, *pfunc.objparams())", "        result = _Quadrature.apply(pfunc, xl, xu, fwd_options, bck_options, nparams,\n                                   dtype, device, *params, *pfunc.objparams())\n        return result", None, expect="silent"),
+        R("ac11-zero-shortcut", "C13", QUADF, "    pfunc = get_pure_function(fcn)\n    nparams = len(params)", "    if isinstance(xl, float) and xl == xu:\n        return out * 0\n    pfunc = get_pure_function(fcn)\n    nparams = len(params)", "AC11"),
+        R("ac12-operand-rebound", "C01", S_PUB, "    if method is None:", "    if E is not None and M is None:\n        E = E + 0\n    if method is None:", "AC11", count=1),
+        # ---- linop
+        R("c11-ip-own-allocation-ok", "C11", LINOPF, "        return self.a._mv(x) * self.f\n", "        y = self.a._mv(x) * self.f\n        return y\n", None, expect="silent",
+          note="a local alias of the product changes nothing"),
+        R("c11-ip-foreign", "C11", LINOPF, "        return self.a._mv(x) * self.f\n", "        y = self.a._mv(x)\n        y *= self.f\n        return y\n", "C11-IP"),
+        R("c11-hf-matmul-inferred", "C11", LINOPF, "        shape = (*get_bcasted_dims(a.shape[:-2], b.shape[:-2]), a.shape[-2], b.shape[-1])\n        super(MatmulLinearOperator, self).__init__(\n            shape=shape,\n            is_hermitian=is_hermitian,",
+          "        shape = (*get_bcasted_dims(a.shape[:-2], b.shape[:-2]), a.shape[-2], b.shape[-1])\n        super(MatmulLinearOperator, self).__init__(\n            shape=shape,\n            is_hermitian=is_hermitian or (a.is_hermitian and b.is_hermitian),", ["C11-HF"]),
+        R("c11-hf-add-or", "C11", LINOPF, "        is_hermitian = a.is_hermitian and b.is_hermitian\n        super(AddLinearOperator", "        is_hermitian = a.is_hermitian or b.is_hermitian\n        super(AddLinearOperator", "C11-HF"),
+        R("c11-hf-add-respelled-ok", "C11", LINOPF, "        is_hermitian = a.is_hermitian and b.is_hermitian\n        super(AddLinearOperator", "        is_hermitian = not (not a.is_hermitian or not b.is_hermitian)\n        super(AddLinearOperator", None, expect="silent"),
+        R("c11-sc-complex", "C11", LINOPF, "        if not (isinstance(f, int) or isinstance(f, float)):", "        if not (isinstance(f, int) or isinstance(f, float) or isinstance(f, complex)):", "C11-SC"),
+        # ---- jac / hess
+        R("c17-jac-append-form-ok", "C17", JACF, "    res = [_Jac(pfcn, params, idx) for idx in idxs_list]\n", "    res = []\n    for idx in idxs_list:\n        res.append(_Jac(pfcn, params, idx))\n", None, expect="silent"),
+        R("c17-jac-sorted", "C17", JACF, "    res = [_Jac(pfcn, params, idx) for idx in idxs_list]\n", "    res = [_Jac(pfcn, params, idx) for idx in sorted(idxs_list)]\n", "C17-V"),
+        R("c17-idxs-falsy", "C17", JACF, "    if idxs is None:\n        idxs = [i for i, t in enumerate(params)", "    if not idxs:\n        idxs = [i for i, t in enumerate(params)", "C17-V"),
+        # ---- dispatch
+        R("c18-table-reordered-ok", "C18", RFF, '                "minimizer": _OPT_METHODS,\n                "rootfinder": _RF_METHODS,', '                "rootfinder": _RF_METHODS,\n                "minimizer": _OPT_METHODS,', None, expect="silent"),
+        R("c18-table-crossed", "C18", RFF, '                "minimizer": _OPT_METHODS,\n                "rootfinder": _RF_METHODS,', '                "minimizer": _RF_METHODS,\n                "rootfinder": _OPT_METHODS,', "C18-L"),
+        R("c18-default-merge-filter", "C18", "xitorch/_utils/misc.py", "    res.update(opt)\n", "    res.update({k: v for k, v in opt.items() if v is not None})\n", "C18-O"),
+        # ---- warnings / data
+        R("wf-global-filter", "C03", "xitorch/_impls/optimize/root/rootsolver.py", "    x_is_complex = torch.is_complex(x0)\n", "    x_is_complex = torch.is_complex(x0)\n    warnings.simplefilter(\"ignore\")\n", "WF"),
+        R("da-data-assign", "C09", "xitorch/_core/editable_module.py", "                del_attr(self, name)\n                set_attr(self, name, val)", "                get_attr(self, name).data = val", ["DA", "C09-N"]),
+    ]
+
+
 def seeded():
     """the independently seeded changes kept under /verif/seeded that the property's own check detects"""
     import json
@@ -370,6 +413,6 @@ def seeded():
 
 
 def all_mutants():
-    drop = {"c01-abe-no-unswap", "c07-rk4-other-order4", "c07-rk45-A", "c07-erk-two-steps-per-interval", "c07-packer-offset"}
-    ms = [m for m in c05() + c06() + c07() + c12() + c14() + c15() + extras() + seeded() if m["id"] not in drop]
+    drop = {"hs-module-memo-used", "c01-abe-no-unswap", "c07-rk4-other-order4", "c07-rk45-A", "c07-erk-two-steps-per-interval", "c07-packer-offset"}
+    ms = [m for m in c05() + c06() + c07() + c12() + c14() + c15() + extras() + generic_rules() + seeded() if m["id"] not in drop]
     return ms
